@@ -159,4 +159,20 @@ theorem rd_wrAll (f : Nat → Wr → Nat) (m : Mem) (ws : List (Option Wr)) (a :
         · simp [wrTo, ha]
       · simp [hl]
 
+/-- for an address below the depth, a transparent read port latches the row after the writes
+    (whatever the write ports do, also when several address the row) -/
+theorem rdT_eq (f : Nat → Wr → Nat) (m : Mem) (ws : List (Option Wr)) (a : Nat) (ha : a < m.length) :
+    rdT f m ws a = rd (wrAll f m ws) a := by
+  unfold rdT wrAll
+  induction ws generalizing m with
+  | nil => rfl
+  | cons w ws ih =>
+    simp only [List.foldl_cons]
+    cases w with
+    | none => exact ih m ha
+    | some w =>
+      simp only [wrOpt]
+      rw [← ih (wr1 f m w) (by rw [length_wr1]; exact ha), rd_wr1]
+      by_cases h : w.addr = a <;> simp [h, ha]
+
 end TxV.BankMem
